@@ -850,6 +850,9 @@ def to_src(o):
         if isinstance(o, float) and (o != o or o in (float("inf"), float("-inf"))):
             return None
         return repr(o)
+    if isinstance(o, _enum.Flag) and type(o).__name__ in NS and o not in list(type(o)):
+        # a combination of flag members (or the empty flag)
+        return " | ".join(f"{type(o).__name__}.{m.name}" for m in o) or f"{type(o).__name__}(0)"
     if isinstance(o, _enum.Enum):
         return f"{type(o).__name__}.{o.name}" if type(o).__name__ in NS else None
     if type(o).__module__ == "pv_vocab" and type(o).__name__ in ("Rev", "Fwd", "IntKeyed", "LS"):
